@@ -14,11 +14,14 @@ time). The repaired parser bounds the depth at four places; this rule checks tha
  3. templates     deftemplate::expand: its recursive call passes `nesting + 1`, and the function compares
                   `nesting` with a constant on entry and bails out; every push of a replacement is dominated by
                   a `checked_sub` on the expression budget whose None outcome bails out.
- 4. variables     check_vars_are_not_cyclic compares the length of a chain of references with a constant and
-                  bails out (parse_vars hands the table out only after that check: R-REC).
+ 4. variables     check_vars_are_not_cyclic compares the length of a chain of references and the list nesting of
+                  a variable's *resolved* value with a constant and bails out (parse_vars hands the table out only
+                  after that check: R-REC).
+ 5. aliases       an `@alias` reference adds the recorded nesting of the alias's action to the current counter and
+                  compares the sum with a constant (the action of an alias is spliced in without being parsed again).
 
 The other recursive walkers of the parser (SExpr visitors, Action visitors) inherit their depth bound from 1-3:
-expressions are at most 128 + 128 deep, actions at most 128."""
+expressions are at most 128 + 128 deep, actions at most 128 (aliases included)."""
 from collections import defaultdict
 
 from kq.core import Resolver, callee_name, is_const, is_place, norm_name, proj
@@ -99,7 +102,7 @@ def _is_copy_of_param(f, op, n, depth=0):
 
 
 def run(prog):
-    res = RuleResult("R-DEPTH", "the parser's recursion depth is bounded by explicit guards (reader, actions, templates, variables)", floor=5)
+    res = RuleResult("R-DEPTH", "the parser's recursion depth is bounded by explicit guards (reader, actions, templates, variables)", floor=7)
 
     # ---- 1. reader
     f = prog.fn_opt(KP + "sexpr::parse_with")
@@ -249,22 +252,46 @@ def run(prog):
         res.viol("variables/anchor", "parser/src/cfg/mod.rs", "check_vars_are_not_cyclic not found")
     else:
         res.fn(f)
-        # the chain length (the maximum over the referenced variables) is compared with a constant, and the
-        # "too long" outcome leaves with an error
+        n_cmp = 0
+        for b in sorted(f.reachable()):
+            c = _cmp_with_const(f, b)
+            if c is None:
+                continue
+            succs = [s_ for s_ in f.succs(b) if not f.is_cleanup(s_)]
+            if any(_reaches_err_return(f, s_, avoid=[o for o in succs if o != s_]) and all(o not in f.reach_from(s_, avoid=[o for o in succs if o != s_]) for o in succs if o != s_) for s_ in succs):
+                n_cmp += 1
+        ok2 = n_cmp >= 2
+        res.inst("variables/chain-and-nesting-compared", where=f.loc, bound_tests=n_cmp, ok=ok2)
+        res.oblige(ok2)
+        if not ok2:
+            res.viol("variables/chain-and-nesting-compared", f.loc,
+                     "check_vars_are_not_cyclic has fewer than two bound tests that leave with an error (length of a chain of references, "
+                     "list nesting of the resolved value): resolving a variable recurses once per link of the chain, and the walkers "
+                     "that resolve variables (push-msg, cmd, concat) once per level of that nesting")
+    # ---- 5. aliases: a reference adds the nesting of the alias's action
+    f = prog.fn_opt(KP + "parse_action_atom")
+    if f is None:
+        res.viol("aliases/anchor", "parser/src/cfg/mod.rs", "parse_action_atom not found")
+    else:
+        res.fn(f)
         ok = False
         for b in sorted(f.reachable()):
             c = _cmp_with_const(f, b)
-            if c is None or _derives_from_call(f, c[1], ("unwrap_or", "max", "unwrap_or_default")) is None:
+            if c is None:
                 continue
-            succs = [s for s in f.succs(b) if not f.is_cleanup(s)]
-            for s in succs:
-                others = [o for o in succs if o != s]
-                if _reaches_err_return(f, s, avoid=others) and all(o not in f.reach_from(s, avoid=others) for o in others):
+            add = _derives_from_call(f, c[1], ("saturating_add", "checked_add", "wrapping_add"))
+            if add is None or not add["args"] or _derives_from_call(f, add["args"][0], ("get",)) is None:
+                continue
+            succs = [s_ for s_ in f.succs(b) if not f.is_cleanup(s_)]
+            for s_ in succs:
+                others = [o for o in succs if o != s_]
+                if _reaches_err_return(f, s_, avoid=others) and all(o not in f.reach_from(s_, avoid=others) for o in others):
                     ok = True
-        res.inst("variables/chain-length-compared", where=f.loc, ok=ok)
+        res.inst("aliases/reference-adds-nesting", where=f.loc, ok=ok)
         res.oblige(ok)
         if not ok:
-            res.viol("variables/chain-length-compared", f.loc,
-                     "check_vars_are_not_cyclic no longer compares the length of a chain of variable references with a constant: "
-                     "resolving a variable recurses once per link of the chain")
+            res.viol("aliases/reference-adds-nesting", f.loc,
+                     "an `@alias` reference no longer adds the nesting of the alias's action to the current nesting counter and compares "
+                     "the sum with a constant: the action of an alias is spliced in as it is, so chains of aliases build action trees of "
+                     "unbounded depth (stack overflow in the chord-resolution pass or in do_action)")
     return res
